@@ -7,9 +7,18 @@ import (
 )
 
 func main() {
-	p := canvas.MustParseSVGPath("M0 0C3 3 0 3 3 0C6 3 3 3 6 0")
-	fmt.Println(p.Length())
-	for _, s := range p.SplitAt(0.2, 1.2, 3.7, 4.7, 7.2, 8.2, 10.7) {
-		fmt.Println(s.Length(), s)
+	for _, s := range []string{"M2 0A2 2 0 0 0 -2 0A2 2 0 0 0 2 0z", "M2 0A2 2 0 0 1 -2 0A2 2 0 0 1 2 0z"} {
+		p := canvas.MustParseSVGPath(s)
+		fmt.Println("CCW", p.CCW())
+		for _, d := range []float64{0.3, -0.3} {
+			canvas.FastStroke = true
+			fmt.Println(d, "fast:", p.Offset(d, 0.01))
+			canvas.FastStroke = false
+			fmt.Println(d, "settled:", p.Offset(d, 0.01))
+		}
 	}
+	p := canvas.MustParseSVGPath("M1.7 0A1.7 1.7 0 0 0 -1.7 0A1.7 1.7 0 0 0 1.7 0z")
+	fmt.Println(p.Settle(canvas.Negative))
+	fmt.Println(p.Settle(canvas.NonZero))
+	fmt.Println(p.Reverse().Settle(canvas.Positive))
 }
